@@ -308,7 +308,35 @@ fn exec_c19(case: &Case19, obs: &mut Obs) -> Result<(), Failure> {
         }
         Case19::History { calls, replay } => {
             let recorded: Vec<String> = calls.iter().map(perform).collect();
-            obs.steps += (calls.len() + replay.len()) as u64;
+            obs.steps += (2 * calls.len() + replay.len()) as u64;
+            // each call once more on a thread of its own: a fresh thread has
+            // fresh thread-local state, so anything a previous call left
+            // behind on this thread shows up as a difference
+            for (i, c) in calls.iter().enumerate() {
+                let c2 = c.clone();
+                let fresh = std::thread::Builder::new()
+                    .stack_size(1 << 20)
+                    .spawn(move || perform(&c2))
+                    .ok()
+                    .and_then(|h| h.join().ok());
+                if let Some(f) = fresh {
+                    if f != recorded[i] {
+                        let cut = |s: &str| if s.len() > 200 { format!("{}...", &s[..200]) } else { s.to_string() };
+                        return Err(Failure::new(
+                            "C19",
+                            "same-result-on-a-fresh-thread",
+                            calls[i].name(),
+                            format!(
+                                "{} (call #{i}) returned {} on the thread that had already performed {} other call(s), but {} on a fresh thread",
+                                calls[i].name(),
+                                cut(&recorded[i]),
+                                i,
+                                cut(&f)
+                            ),
+                        ));
+                    }
+                }
+            }
             for (k, &i) in replay.iter().enumerate() {
                 if i >= calls.len() {
                     continue;
@@ -343,7 +371,7 @@ impl Scenario for C19 {
     const ID: &'static str = "C19";
     const LEVEL: &'static str = "exploration";
     fn runs(tier: Tier) -> u64 {
-        tier.pick(60_000, 4_000_000)
+        tier.pick(30_000, 3_000_000)
     }
     fn profiles() -> &'static [Profile] {
         &[Profile::Release]
@@ -372,6 +400,11 @@ impl Scenario for C19 {
             }
         }
         sch.shuffle(&mut replay);
+        // the reverse of the recording order first: whatever call A leaves
+        // behind for a later call B, one of the two passes has B before A
+        let mut full: Vec<usize> = (0..hist.len()).rev().collect();
+        full.extend(replay);
+        let replay = full;
         let case = Case19::History {
             calls: hist,
             replay,
@@ -428,6 +461,12 @@ impl Scenario for C19 {
     }
     fn extra(tier: Tier, seed: u64, obs: &mut Obs) -> Vec<(Value, Failure)> {
         crate::props::c19_side::run_side_crates(tier, seed, obs)
+    }
+    /// Short-lived workers: process-global state left behind by one call can
+    /// only be noticed by the history check the first time it appears in a
+    /// process, so there are many processes.
+    fn runs_per_process(_tier: Tier) -> u64 {
+        250
     }
     fn meta() -> Meta {
         Meta {
